@@ -33,11 +33,14 @@ def default_env(fill_byte=None):
 
 
 class Sim:
-    def __init__(self, binary, args=("-f",), fill_byte=None, timeout=60):
+    def __init__(self, binary, args=("-f",), fill_byte=None, timeout=60, startup_inject=None):
         self.binary = binary
         self.errfile = tempfile.TemporaryFile()
+        env = default_env(fill_byte)
+        if startup_inject:
+            env["SIMK_STARTUP_INJECT"] = startup_inject
         self.p = subprocess.Popen([binary] + list(args), stdin=subprocess.PIPE, stdout=subprocess.PIPE,
-                                  stderr=self.errfile, env=default_env(fill_byte))
+                                  stderr=self.errfile, env=env)
         self.timeout = timeout
         self.exited = None
         self.ncmd = 0
@@ -45,6 +48,8 @@ class Sim:
         first = self._read()
         if "exit" in first:
             self.exited = first["exit"]
+            if startup_inject:
+                return          # the caller inspects the post-mortem state (stat / taps still answer)
             raise DaemonExited(first["exit"])
         self.pending = first.get("pending", [])
         ls = self.cmd("listeners")["listeners"]
